@@ -9,7 +9,7 @@ pos_to_var[i] = label_i (mutually inverse by construction); `new_last` gives the
 label = level = n.
 """
 from . import mir
-from .base import inst, OK, VIOLATION, UNDECIDED, strip
+from .base import inst, OK, VIOLATION, UNDECIDED, strip, some_payload
 from .facts import CheckerError
 from .mir import show
 
@@ -360,8 +360,9 @@ def order_selection(prog):
                         if errs else "%d level combinations: earlier level first, constants last" % n))
     fe = prog.find1(name="first_essential", self_adt=VO, unit="rsdd-lib")
     r = strip(fe.terms.ret)
-    ok = show(r) == "(var(first(arg1, first(arg1, arg2, arg3), arg4)) as Some).0" or \
-        show(r) == "(var(first(arg1, arg2, first(arg1, arg3, arg4))) as Some).0"
+    inner = some_payload(prog, r)
+    ok = inner is not None and show(inner) in ("var(first(arg1, first(arg1, arg2, arg3), arg4))",
+                                               "var(first(arg1, arg2, first(arg1, arg3, arg4)))")
     out.append(inst("VO", "%s:by-level" % fe.npath, OK if ok else VIOLATION, fe, None,
                     "top variable of first(first(f, g), h)" if ok else
                     "first_essential is %s, expected the top variable of first(first(f,g),h)" % show(r)[:80]))
